@@ -78,6 +78,7 @@ class Obj:
         self.real = None
         self.ever_cooked = False
         self.count_unknown = False
+        self.uncertain = False
 
 
 class C16(CheckBase):
@@ -352,6 +353,12 @@ class C16(CheckBase):
                     # any mtime scheme - either version is acceptable
                     accept.append(cur[0])
                     cover.add("same-mtime-rewrite")
+            if ob.uncertain and ob.version is not None and cur is not None \
+                    and cur[0] != ob.version and cur[0] not in accept:
+                # an earlier op met an injected fault: the real object may
+                # have been left invalid and compile the current content now
+                accept.append(cur[0])
+                cover.add("post-fault-ambiguity")
             if ob.version is None:
                 if cur is None:
                     return None, "OSError"
@@ -403,6 +410,19 @@ class C16(CheckBase):
                 return ["exc", type(e).__name__, norm_msg(str(e))[:200],
                         [c.__name__ for c in type(e).__mro__]]
 
+        want_version: dict[int, dict] = {}
+
+        def adopt(ob: Obj, got, wants):
+            """After a clean use of an object whose state was ambiguous,
+            settle on the version that was actually served."""
+            if not ob.uncertain:
+                return
+            for w in wants:
+                if w[:2] == got[:2] and id(w) in want_version:
+                    ob.version = want_version[id(w)]
+                    break
+            ob.uncertain = False
+
         def check(i, op, got, wants, faulted):
             log.add("op", i, norm_msg(canonical(op))[:200],
                     canonical(got[:2])[:400])
@@ -438,6 +458,7 @@ class C16(CheckBase):
                 return [["exc", exc]]
             wants = []
             for v in versions:
+                n0 = len(wants)
                 if v.get("callee") and what == "render":
                     ch_, cexc = child_of(ob, [v])
                     if cexc:
@@ -449,8 +470,11 @@ class C16(CheckBase):
                         continue
                     for cv in cvs:
                         wants.append(self.ref_render(world, v, cv, what, arg))
+                    for w in wants[n0:]:
+                        want_version[id(w)] = v
                     continue
                 wants.append(self.ref_render(world, v, None, what, arg))
+                want_version[id(wants[-1])] = v
             return wants
 
         def count_check(i, op, ob: Obj):
@@ -520,6 +544,7 @@ class C16(CheckBase):
                     if faulted:
                         self._uncertain(ob)
                     else:
+                        adopt(ob, got, wants)
                         count_check(i, op, ob)
                 elif k in ("load", "absload"):
                     spec = op[1] if k == "load" else full(op[1])
@@ -575,6 +600,7 @@ class C16(CheckBase):
                     if faulted:
                         self._uncertain(lo)
                     else:
+                        adopt(lo, got, wants)
                         count_check(i, op, lo)
             world.armed.clear()
 
@@ -635,6 +661,7 @@ class C16(CheckBase):
         the compile counter is unknowable and is adopted once."""
         for o in [ob] + list(ob.children.values()):
             o.count_unknown = True
+            o.uncertain = True
 
     def _v(self, kind, i, op, detail) -> dict:
         return {"kind": kind, "sig": kind,
